@@ -295,7 +295,8 @@ Definition import_mux_signal (env : ienv) (st : istate) (mpos : nat) (msgid : Z)
   (* without multiplexed signals the file does not tell the group size: the smallest one *)
   let gsize := if end_bit >? 0 then end_bit - mstart - msize else 1 in
   let gcount := calc_value_from_size msize in
-  if gcount <=? 0 then Err "group count not positive"
+  if msize =? 0 then Err "multiplexor switch of size zero"
+  else if gcount <=? 0 then Err "group count not positive"
   else if gsize <=? 0 then Err "group size not positive"
   else
     let mx := mksignal id (ds_name dm) KMux 0 None [] 0 false fl_one fl_zero fl_zero fl_zero EmptyString
@@ -398,7 +399,10 @@ Definition import_message_signals (env : ienv) (st : istate) (mpos : nat) (dm : 
                  | Some em =>
                      match mux_idx (em_muxor em) with
                      | None => Err "multiplexor not found"
-                     | Some mi => Ok ((st1, snd ms), app_nth mi (mt, dmx) groups)
+                     | Some mi =>
+                         (* the multiplexor has to be placed before the multiplexer it selects *)
+                         if Nat.leb j mi then Err "multiplexor not placed before its multiplexer"
+                         else Ok ((st1, snd ms), app_nth mi (mt, dmx) groups)
                      end
                  end)
                (rev (seq 0 nmux)) (Ok r1);
